@@ -408,3 +408,148 @@ func checkSplitKeysFormat(e *Engine, r *Report, pkg string) {
 	}
 	r.Check(key, "R6 operator tables", what, e.Pos(sk.Pos()), sk, good, witness, true)
 }
+
+// ---- ResolveRef: the walk over the key ---------------------------------------------------------------
+// Decided as path rules over ResolveRef, anchored at three constructs found by type: the comma-ok lookup in a
+// map[string]string, the comparison of the remaining key with "", and the final assertion of the object to string.
+
+func boolConstOf(v ssa.Value) (val, ok bool) {
+	c, isC := v.(*ssa.Const)
+	if !isC || c.Value == nil || c.Value.Kind() != constant.Bool {
+		return false, false
+	}
+	return constant.BoolVal(c.Value), true
+}
+
+func assumeBool(v ssa.Value, val bool) Assumption {
+	return func(cond ssa.Value) (bool, bool) {
+		if cond == v {
+			return true, val
+		}
+		if u, ok := cond.(*ssa.UnOp); ok && u.Op == token.NOT && u.X == v {
+			return true, !val
+		}
+		return false, false
+	}
+}
+
+func extractOf(t ssa.Value, idx int) ssa.Value {
+	if t.Referrers() == nil {
+		return nil
+	}
+	for _, ref := range *t.Referrers() {
+		if ex, ok := ref.(*ssa.Extract); ok && ex.Index == idx {
+			return ex
+		}
+	}
+	return nil
+}
+
+func checkResolveRef(e *Engine, r *Report, pkg string) {
+	rr := r.Anchor(pkg, "ResolveRef")
+	if rr == nil {
+		return
+	}
+	const rule = "R6 operator tables"
+	var lookup *ssa.Lookup
+	var strAssert *ssa.TypeAssert
+	var walkAsserts []ssa.Instruction
+	var emptyCmp *ssa.BinOp
+	AllInstrs(rr, func(in ssa.Instruction) {
+		switch x := in.(type) {
+		case *ssa.Lookup:
+			if m, ok := x.X.Type().Underlying().(*types.Map); ok && x.CommaOk {
+				if b, ok := m.Elem().Underlying().(*types.Basic); ok && b.Kind() == types.String {
+					lookup = x
+				}
+			}
+		case *ssa.TypeAssert:
+			if b, ok := x.AssertedType.Underlying().(*types.Basic); ok && b.Kind() == types.String && x.CommaOk {
+				strAssert = x
+			} else {
+				walkAsserts = append(walkAsserts, x)
+			}
+		case *ssa.BinOp:
+			if x.Op == token.EQL || x.Op == token.NEQ {
+				if c, ok := x.Y.(*ssa.Const); ok && c.Value != nil && c.Value.Kind() == constant.String && constant.StringVal(c.Value) == "" {
+					if b, ok := x.X.Type().Underlying().(*types.Basic); ok && b.Kind() == types.String && emptyCmp == nil {
+						emptyCmp = x
+					}
+				}
+			}
+		}
+	})
+	if lookup == nil || strAssert == nil || emptyCmp == nil || len(walkAsserts) == 0 {
+		r.Undecided("R6:resolve-walk", rule, "ResolveRef walks the key through Evaluable objects and string maps and ends with a string", e.Pos(rr.Pos()), rr,
+			fmt.Sprintf("anchors not found: lookup=%v final-assert=%v empty-key-test=%v walk-asserts=%d", lookup != nil, strAssert != nil, emptyCmp != nil, len(walkAsserts)))
+		return
+	}
+	isWalk := func(in ssa.Instruction) bool {
+		for _, w := range walkAsserts {
+			if w == in {
+				return true
+			}
+		}
+		return false
+	}
+	foundIs := func(ret *ssa.Return, want bool) bool {
+		if len(ret.Results) < 2 {
+			return false
+		}
+		v, ok := boolConstOf(ret.Results[1])
+		return ok && v == want
+	}
+	report := func(key, what string, p []ssa.Instruction, pos ssa.Instruction) {
+		w := ""
+		if p != nil {
+			w = e.pathString(p)
+		}
+		r.Check(key, rule, what, e.InstrPos(pos), rr, p == nil, w, true)
+	}
+	okL := extractOf(lookup, 1)
+	okS, valS := extractOf(strAssert, 1), extractOf(strAssert, 0)
+	if okL == nil || okS == nil || valS == nil {
+		r.Undecided("R6:resolve-walk", rule, "ResolveRef tests its lookups", e.Pos(rr.Pos()), rr, "a comma-ok result is not used")
+		return
+	}
+	// A: a key missing from a label/annotation map is "not found"
+	report("R6:resolve-miss-is-not-found", "ResolveRef: a key missing from a string map makes the reference not found (never a found empty value)",
+		FindPath(PathQuery{Fn: rr, From: lookup, Assume: assumeBool(okL, false), Target: func(in ssa.Instruction) bool {
+			ret, ok := in.(*ssa.Return)
+			return ok && !foundIs(ret, false)
+		}}), lookup)
+	// B: a key present in the map is not reported missing at the lookup
+	report("R6:resolve-hit-continues", "ResolveRef: a key present in a string map is not reported as not found at the lookup",
+		FindPath(PathQuery{Fn: rr, From: lookup, Assume: assumeBool(okL, true), Block: func(in ssa.Instruction) bool { _, ok := in.(*ssa.TypeAssert); return ok },
+			Target: func(in ssa.Instruction) bool {
+				ret, ok := in.(*ssa.Return)
+				return ok && !foundIs(ret, true)
+			}}), lookup)
+	// C: the walk ends exactly when no key remains
+	emptyAssume := func(empty bool) Assumption {
+		return func(cond ssa.Value) (bool, bool) {
+			if cond == ssa.Value(emptyCmp) {
+				return true, (emptyCmp.Op == token.EQL) == empty
+			}
+			if u, ok := cond.(*ssa.UnOp); ok && u.Op == token.NOT && u.X == ssa.Value(emptyCmp) {
+				return true, (emptyCmp.Op == token.EQL) != empty
+			}
+			return false, false
+		}
+	}
+	report("R6:resolve-continues-while-key-remains", "ResolveRef: while a part of the key remains the object is not taken as the final value (nested keys pod/labels/… are walked to the end)",
+		FindPath(PathQuery{Fn: rr, From: emptyCmp, Assume: emptyAssume(false), Block: isWalk, Target: func(in ssa.Instruction) bool { return in == ssa.Instruction(strAssert) }}), emptyCmp)
+	report("R6:resolve-stops-at-empty-key", "ResolveRef: once the key is used up the walk stops and the object is taken as the value",
+		FindPath(PathQuery{Fn: rr, From: emptyCmp, Assume: emptyAssume(true), Block: func(in ssa.Instruction) bool { return in == ssa.Instruction(strAssert) }, Target: isWalk}), emptyCmp)
+	// D: the result is the string the walk ended at
+	report("R6:resolve-string-is-the-value", "ResolveRef: when the walk ends at a string, that string is returned as found",
+		FindPath(PathQuery{Fn: rr, From: strAssert, Assume: assumeBool(okS, true), Target: func(in ssa.Instruction) bool {
+			ret, ok := in.(*ssa.Return)
+			return ok && !(foundIs(ret, true) && unspill(ret.Results[0]) == valS)
+		}}), strAssert)
+	report("R6:resolve-non-string-is-not-found", "ResolveRef: when the walk ends at something else than a string, nothing is found",
+		FindPath(PathQuery{Fn: rr, From: strAssert, Assume: assumeBool(okS, false), Target: func(in ssa.Instruction) bool {
+			ret, ok := in.(*ssa.Return)
+			return ok && !foundIs(ret, false)
+		}}), strAssert)
+}
